@@ -66,6 +66,7 @@ theorem apply_noOOF (g : G) (a : Action) (hinv : TInv g.core) : NoOOF (g.apply a
     · split
       · simp [NoOOF]
       · exact (psi_wake _ _).1
+  | cancelRem p => exact (psi_deliverCancels g _ hinv).1
 
 theorem react_noOOF (g : G) (a : Action) (h : Good g) : NoOOF (react g a).2 := by
   unfold react
